@@ -30,6 +30,7 @@ type Program struct {
 	fcPkg     map[*FuncContract]*ssa.Package
 	constGlobals map[string]bool
 	audits    []*auditRef
+	monitors  []*monitorRef
 }
 
 type lemmaRef struct {
@@ -194,6 +195,9 @@ func Load(ls LoadSpec) (*Program, error) {
 			}
 			for _, a := range sf.Audits {
 				p.audits = append(p.audits, &auditRef{a, sp})
+			}
+			for _, m := range sf.Monitors {
+				p.monitors = append(p.monitors, &monitorRef{m, sp})
 			}
 		}
 	}
